@@ -19,6 +19,12 @@ type Outcome struct {
 	Facts   []string // facts connected to the failed goal
 	Note    string
 	Skipped bool // not an obligation (e.g. map lookup)
+	// Beyond: set when the unproved goal depends on state this prover does not
+	// model: a value loaded from a field of an object of an unexported type that
+	// the function receives through a pointer (a cursor/reader whose state is
+	// carried on the heap between method calls), a captured variable, or the
+	// parameter of a function literal (entered through a function value).
+	Beyond string
 }
 
 func (fi *FuncInfo) prove(c *Ctx, goals []lin.Con) Outcome {
@@ -32,6 +38,7 @@ func (fi *FuncInfo) prove(c *Ctx, goals []lin.Con) Outcome {
 			o.Proved = false
 			o.Failed = c.Describe(g)
 			o.Facts = c.FactStrings(g, 24)
+			o.Beyond = fi.beyond(g)
 			break
 		}
 	}
@@ -374,3 +381,165 @@ func (fi *FuncInfo) TermValue(t lin.Term) (ssa.Value, bool) {
 
 // LoadRep exposes the representative of a load (available-load analysis).
 func (fi *FuncInfo) LoadRep(u *ssa.UnOp) ssa.Value { return fi.loadRep(u) }
+
+// beyond: see Outcome.Beyond.
+func (fi *FuncInfo) beyond(g lin.Con) string {
+	unexportedNamed := func(t types.Type) (string, bool) {
+		if p, ok := t.Underlying().(*types.Pointer); ok {
+			t = p.Elem()
+		}
+		n, ok := t.(*types.Named)
+		if !ok || n.Obj().Exported() {
+			return "", false
+		}
+		if _, isStruct := n.Underlying().(*types.Struct); !isStruct {
+			return "", false
+		}
+		return n.Obj().Name(), true
+	}
+	for _, t := range g.F.Terms() {
+		v := fi.terms[t].v
+		// strip len(...) of loads etc.: look at the value itself
+		for d := 0; d < 4; d++ {
+			if sl, ok := v.(*ssa.Slice); ok {
+				v = sl.X
+				continue
+			}
+			break
+		}
+		switch x := v.(type) {
+		case *ssa.UnOp:
+			if x.Op != token.MUL {
+				continue
+			}
+			addr := x.X
+			for d := 0; d < 4; d++ {
+				if fa, ok := addr.(*ssa.FieldAddr); ok {
+					base := fa.X
+					if ld, ok := base.(*ssa.UnOp); ok && ld.Op == token.MUL {
+						base = ld.X // receiver spilled to a cell
+						if al, ok := base.(*ssa.Alloc); ok {
+							for _, r := range *al.Referrers() {
+								if st, ok := r.(*ssa.Store); ok && st.Addr == ssa.Value(al) {
+									base = st.Val
+								}
+							}
+						}
+					}
+					if prm, ok := base.(*ssa.Parameter); ok {
+						if name, ok := unexportedNamed(prm.Type()); ok {
+							return "the goal depends on a field of *" + name + " (cursor state carried on the heap between calls)"
+						}
+					}
+					if al, ok := base.(*ssa.Alloc); ok {
+						// a local cursor object whose methods (pointer receiver) advance it
+						if name, ok := unexportedNamed(al.Type()); ok && hasPointerMethodCall(al) {
+							return "the goal depends on a field of the local " + name + " object, which is advanced by its own methods between uses"
+						}
+					}
+					addr = fa.X
+					continue
+				}
+				break
+			}
+		case *ssa.Parameter:
+			if fi.Fn.Parent() != nil && closureEscapes(fi.Fn) {
+				return "the goal depends on a parameter of a function literal that is stored or passed as a value (entered through a function value, so no call-site facts)"
+			}
+		}
+	}
+	return ""
+}
+
+func hasPointerMethodCall(al *ssa.Alloc) bool {
+	if al.Referrers() == nil {
+		return false
+	}
+	for _, r := range *al.Referrers() {
+		if c, ok := r.(ssa.CallInstruction); ok {
+			if f := c.Common().StaticCallee(); f != nil && f.Signature.Recv() != nil && len(c.Common().Args) > 0 && c.Common().Args[0] == ssa.Value(al) {
+				return true
+			}
+		}
+	}
+	return false
+}
+
+// closureEscapes: the function literal fn is used as a VALUE somewhere (stored,
+// passed, put in a table), not only called directly by name in its parent.
+func closureEscapes(fn *ssa.Function) bool {
+	par := fn.Parent()
+	if par == nil {
+		return false
+	}
+	for _, b := range par.Blocks {
+		for _, in := range b.Instrs {
+			var val ssa.Value
+			switch x := in.(type) {
+			case *ssa.MakeClosure:
+				if x.Fn == ssa.Value(fn) {
+					val = x
+				}
+			}
+			if val == nil {
+				// a closure without free variables is referenced as the *ssa.Function itself
+				for _, op := range in.Operands(nil) {
+					if *op == ssa.Value(fn) {
+						if c, ok := in.(ssa.CallInstruction); ok && c.Common().Value == ssa.Value(fn) {
+							continue
+						}
+						return true
+					}
+				}
+				continue
+			}
+			if val.Referrers() == nil {
+				continue
+			}
+			for _, r := range *val.Referrers() {
+				if c, ok := r.(ssa.CallInstruction); ok && c.Common().Value == val {
+					continue // called directly
+				}
+				if _, ok := r.(*ssa.DebugRef); ok {
+					continue
+				}
+				// stored into a local variable that is only ever called is still "direct"
+				if st, ok := r.(*ssa.Store); ok {
+					if al, ok := st.Addr.(*ssa.Alloc); ok && onlyLoadedAndCalled(al) {
+						continue
+					}
+				}
+				return true
+			}
+		}
+	}
+	return false
+}
+
+func onlyLoadedAndCalled(al *ssa.Alloc) bool {
+	if al.Referrers() == nil {
+		return true
+	}
+	for _, r := range *al.Referrers() {
+		switch x := r.(type) {
+		case *ssa.Store:
+			if x.Addr != ssa.Value(al) {
+				return false
+			}
+		case *ssa.UnOp:
+			if x.Referrers() != nil {
+				for _, rr := range *x.Referrers() {
+					if c, ok := rr.(ssa.CallInstruction); !ok || c.Common().Value != ssa.Value(x) {
+						if _, isDbg := rr.(*ssa.DebugRef); !isDbg {
+							return false
+						}
+					}
+				}
+			}
+		case *ssa.DebugRef, *ssa.MakeClosure:
+		default:
+			return false
+		}
+	}
+	return true
+}
